@@ -43,6 +43,9 @@ def check(rep, F, tier, replay=None):
             rep.lost("no HIR for %s" % key)
             continue
         table, wild, errs, n = e7.cert_table(F, hir, "CertificateEnum", params, accs)
+        if any(e.startswith("SHAPE:") for e in errs):
+            rep.lost("%s: %s" % (key, [e for e in errs if e.startswith("SHAPE:")][0]))
+            continue
         if n != 1:
             rep.lost("%s: expected exactly one match over CertificateEnum in %s, found %d" % (label, key, n))
             continue
